@@ -368,3 +368,66 @@ def plan_campaign(ctx, props, n_quick=150, n_thorough=3000):
         if prop in props:
             ctx.fail(key, what, replay)
     ctx.notes["plan_level_runs"] = ctx.n(n_quick, n_thorough)
+
+
+def equal_constants(ctx, uj, with_registry, report):
+    """Constants that compare equal but are different values (1, True, 1.0, Fraction(1), Decimal(1); 0, False, 0.0, -0.0; (1,), (True,)) used
+    by different calls of one plan - in one scope, directly, by keyword and inside containers: every call receives ITS constant.  With a
+    registry the results are also stored, the run repeated, and both outputs and stored values compared with direct evaluation."""
+    import datetime as dt
+    import decimal
+    import fractions
+    import itertools
+    clock = itertools.count(1)
+    groups = [[1, True, 1.0, fractions.Fraction(1), decimal.Decimal(1)], [0, False, 0.0, -0.0], [(1,), (True,), (1.0,)], [frozenset({1}), frozenset({True})]]
+
+    class Mem(uj.ValueStore):
+        def __init__(self):
+            self.v, self.t = None, None
+
+        def read(self):
+            return self.v
+
+        def write(self, v):
+            self.v, self.t = v, dt.datetime(2020, 1, 1) + dt.timedelta(seconds=next(clock))
+
+        def get_modified_time(self):
+            return self.t
+
+    def show(x):
+        return "%s:%r" % (type(x).__name__, x)
+    for how in ("positional", "keyword", "in-list", "in-dict-value"):
+        for order in (0, 1):
+            for workers in (1, 3):
+                plan, reg = uj.Plan(), uj.Registry()
+                nodes, want, stores = [], [], []
+                for g in groups:
+                    for c in (g if order == 0 else list(reversed(g))):
+                        if how == "positional":
+                            n = plan.call(show, c)
+                        elif how == "keyword":
+                            n = plan.call(lambda x: show(x), x=c)
+                        elif how == "in-list":
+                            n = plan.call(lambda box: show(box[0]), [c, "pad"])
+                        else:
+                            n = plan.call(lambda box: show(box["k"]), {"k": c})
+                        nodes.append(n)
+                        want.append(show(c))
+                        if with_registry:
+                            st = Mem()
+                            reg.add(n, st)
+                            stores.append(st)
+                ctx.case(("equal-constants", how, order, workers, with_registry))
+                outs = []
+                for attempt in range(2 if with_registry else 1):
+                    try:
+                        outs.append(uj.run(plan, output=nodes, registry=reg if with_registry else None, max_workers=workers, progress=None))
+                    except BaseException as e:      # noqa
+                        outs.append("raised %s: %r" % (type(e).__name__, getattr(e, "__cause__", None)))
+                stored = [st.v for st in stores]
+                if any(o != want for o in outs) or (with_registry and stored != want):
+                    bad = next((i for i, o in enumerate(outs) if o != want), None)
+                    report("equal-constants", "constants that compare equal but differ (%s, %s): run %s returned %r%s; direct evaluation gives %r"
+                           % (how, "ascending" if order == 0 else "descending", bad, outs[bad] if bad is not None else outs[0],
+                              "; stored values %r" % (stored,) if with_registry and stored != want else "", want),
+                           {"how": how, "order": order, "max_workers": workers, "registry": with_registry})
